@@ -3488,7 +3488,7 @@ where
             1u8 => match constraint {
               Some(c) => {
                 if let Some(literal_val) = c.as_literal() {
-                  if i128::from(*i) == 0i128 - literal_val as i128 {
+                  if i128::from(*i) == -1i128 - literal_val as i128 {
                     return Ok(());
                   }
                 }
